@@ -54,6 +54,30 @@ impl vstd::std_specs::ops::DivSpecImpl<F> for F {
     open spec fn div_spec(self, rhs: F) -> F { f_div(self, rhs) }
 }
 impl core::ops::Div for F { type Output = F; #[verifier::external_body] fn div(self, rhs: F) -> F { unimplemented!() } }
+impl vstd::std_specs::ops::AddAssignSpecImpl<F> for F {
+    open spec fn obeys_add_assign_spec() -> bool { true }
+    open spec fn add_assign_req(&self, rhs: F) -> bool { true }
+    open spec fn add_assign_spec(&self, rhs: F) -> &F { &f_add(*self, rhs) }
+}
+impl core::ops::AddAssign for F { #[verifier::external_body] fn add_assign(&mut self, rhs: F) { unimplemented!() } }
+impl vstd::std_specs::ops::SubAssignSpecImpl<F> for F {
+    open spec fn obeys_sub_assign_spec() -> bool { true }
+    open spec fn sub_assign_req(&self, rhs: F) -> bool { true }
+    open spec fn sub_assign_spec(&self, rhs: F) -> &F { &f_sub(*self, rhs) }
+}
+impl core::ops::SubAssign for F { #[verifier::external_body] fn sub_assign(&mut self, rhs: F) { unimplemented!() } }
+impl vstd::std_specs::ops::MulAssignSpecImpl<F> for F {
+    open spec fn obeys_mul_assign_spec() -> bool { true }
+    open spec fn mul_assign_req(&self, rhs: F) -> bool { true }
+    open spec fn mul_assign_spec(&self, rhs: F) -> &F { &f_mul(*self, rhs) }
+}
+impl core::ops::MulAssign for F { #[verifier::external_body] fn mul_assign(&mut self, rhs: F) { unimplemented!() } }
+impl vstd::std_specs::ops::DivAssignSpecImpl<F> for F {
+    open spec fn obeys_div_assign_spec() -> bool { true }
+    open spec fn div_assign_req(&self, rhs: F) -> bool { true }
+    open spec fn div_assign_spec(&self, rhs: F) -> &F { &f_div(*self, rhs) }
+}
+impl core::ops::DivAssign for F { #[verifier::external_body] fn div_assign(&mut self, rhs: F) { unimplemented!() } }
 impl vstd::std_specs::ops::NegSpecImpl for F {
     open spec fn obeys_neg_spec() -> bool { true }
     open spec fn neg_req(self) -> bool { true }
